@@ -85,6 +85,8 @@ def _history(a, observe_appends):
     for k, o in enumerate(a[2:]):
         if o and o[0] in (0, 3):
             c = bytearray(o[1:]) if o[0] == 0 else bytes(o[1:])
+            if o[0] == 0 and (k + len(o)) % 3 == 2:
+                c = memoryview(c)      # recv_into() idiom: the chunk is a view of the caller's receive buffer
             q.append(c)
             mine.append(c)
             if observe_appends:
